@@ -127,6 +127,9 @@ def verify_general_json(
         registry: JWSRegistry,
         find_key: FindKey) -> bool:
     payload_segment = obj.segments["payload"]
+    if not obj.signatures:
+        # a JWS without any signature is not verified content
+        return False
     for index, signature in enumerate(obj.signatures):
         member = obj.members[index]
         if not verify_signature(member, signature, payload_segment, registry, find_key):
